@@ -31,6 +31,13 @@ namespace PPL = Parma_Polyhedra_Library;
 
 PPL::C_Polyhedron::C_Polyhedron(const NNC_Polyhedron& y, Complexity_Class)
   : Polyhedron(NECESSARILY_CLOSED, y.space_dimension(), UNIVERSE) {
+  // The closure of an empty polyhedron is empty: this has to be detected
+  // beforehand, since relaxing the strict inequalities of an
+  // unsatisfiable constraint system may make it satisfiable.
+  if (y.is_empty()) {
+    add_constraint(Constraint::zero_dim_false());
+    return;
+  }
   const Constraint_System& cs = y.constraints();
   for (Constraint_System::const_iterator i = cs.begin(),
          cs_end = cs.end(); i != cs_end; ++i) {
